@@ -9,8 +9,10 @@ import (
 	"encoding/hex"
 	"fmt"
 	"go/ast"
+	"go/importer"
 	"go/parser"
 	"go/token"
+	"go/types"
 	"os/exec"
 	"path/filepath"
 	"sort"
@@ -526,11 +528,30 @@ func buildAndRun(dir string) (map[string]string, string, error) {
 	return res, "", nil
 }
 
+// instanceOK type-checks one generated function together with the prelude, so that a generator slip
+// (an instance that is not valid Go) drops that instance instead of breaking the whole module.
+func instanceOK(header, text string) bool {
+	fset := token.NewFileSet()
+	pf, err1 := parser.ParseFile(fset, "prelude.go", prelude, 0)
+	inf, err2 := parser.ParseFile(fset, "inst.go", header+text, 0)
+	if err1 != nil || err2 != nil {
+		return false
+	}
+	if srcImporter == nil {
+		srcImporter = importer.ForCompiler(token.NewFileSet(), "source", nil)
+	}
+	ok := true
+	conf := types.Config{Importer: srcImporter, Error: func(error) { ok = false }}
+	conf.Check("beh", fset, []*ast.File{pf, inf}, nil)
+	return ok
+}
+
 func runBehave(work string, rnd *hx.Rand, n int, only string, keep bool) {
 	dir := filepath.Join(work, "beh")
 	var insts []instance
 	var src bytes.Buffer
-	src.WriteString("package main\n\nimport (\n\t\"bytes\"\n\t\"errors\"\n\t\"fmt\"\n\t\"math\"\n\t\"strings\"\n)\n\nvar _ = bytes.Compare\nvar _ = errors.New\nvar _ = math.Pow\nvar _ = strings.Index\nvar _ = fmt.Sprint\n\n")
+	header := "package main\n\nimport (\n\t\"bytes\"\n\t\"errors\"\n\t\"fmt\"\n\t\"math\"\n\t\"strings\"\n)\n\nvar _ = bytes.Compare\nvar _ = errors.New\nvar _ = math.Pow\nvar _ = strings.Index\nvar _ = fmt.Sprint\n\n"
+	src.WriteString(header)
 	for _, sh := range shapes() {
 		if only != "" && sh.name != only {
 			continue
@@ -539,6 +560,11 @@ func runBehave(work string, rnd *hx.Rand, n int, only string, keep bool) {
 			g := &gen{r: rnd.Fork()}
 			fn := fmt.Sprintf("f%s_%d", sh.name, k)
 			text := "func " + fn + sig + " {\n\t" + sh.body(g) + "\n}\n\n"
+			if !instanceOK(header, text) {
+				stat("behave_instances_dropped", 1)
+				note("generator produced an invalid instance (dropped): %s", text)
+				continue
+			}
 			insts = append(insts, instance{fn, sh.name, text})
 			src.WriteString(text)
 		}
